@@ -763,7 +763,70 @@ func (c *cluster) tplSnapRace(rt *rapid.T) {
 	c.step(vAct{A: "adv", T: 2500})
 }
 
+// tplLeaderConnClosed: a second connection from the leader to a follower (the
+// one a timeout-now request went out on) is closed while the leader's
+// replication keeps the follower up to date; then another follower, whose own
+// timer fired, asks for the vote without permission.
+func (c *cluster) tplLeaderConnClosed(rt *rapid.T) {
+	c.step(vAct{A: "free"})
+	c.step(vAct{A: "adv", T: 1500})
+	ldr := c.anyLeader()
+	if ldr == 0 || c.blackbox {
+		return
+	}
+	r := c.rf(ldr)
+	if r == nil {
+		return
+	}
+	var voters []uint64
+	for _, id := range c.followersOf(ldr) {
+		if nd, ok := r.configs.Latest.Nodes[id]; ok && nd.Voter {
+			voters = append(voters, id)
+		}
+	}
+	if len(voters) < 2 || !r.configs.IsCommitted() {
+		return
+	}
+	perm := rapid.Permutation(voters).Draw(rt, "roles")
+	f, x := perm[0], perm[1]
+	c.stats.class("tpl-leaderconnclosed")
+	c.step(vAct{A: "gate"})
+	c.step(vAct{A: "dlvamong", L: c.upIDs(), K: 6}) // quiesce
+	before := c.stats.count("wire-timeoutNow")
+	c.lastTN = tnConn{}
+	c.step(vAct{A: "xfer", N: ldr, M: f, T: 300})
+	for i := 0; i < 8 && c.stats.count("wire-timeoutNow") == before && !c.failed(); i++ {
+		c.step(vAct{A: "dlvpair", N: ldr, M: f, K: 1})
+	}
+	if c.stats.count("wire-timeoutNow") == before || !c.lastTN.set || c.lastTN.to != f {
+		c.tplBail()
+		return
+	}
+	tn := c.lastTN
+	// the request never arrives; the transfer times out, the RPC gives up and closes
+	// its connection; replication goes on meanwhile
+	for i := 0; i < 3 && !c.failed(); i++ {
+		c.step(vAct{A: "adv", T: 150})
+		c.step(vAct{A: "dlvexcept", N: tn.from, M: tn.to, C: tn.seq, K: 3})
+	}
+	if c.anyLeader() != ldr {
+		c.tplBail()
+		return
+	}
+	// the follower sees that connection end (the request bytes go with it)
+	c.step(vAct{A: "sever", N: tn.from, M: tn.to, C: tn.seq})
+	c.step(vAct{A: "dlvexcept", N: tn.from, M: tn.to, C: tn.seq, K: 2})
+	c.stats.class("tpl-leaderconnclosed-closed")
+	// x's election timer fires; its request reaches f alone
+	c.step(vAct{A: "poke", N: x, S: "main"})
+	for i := 0; i < 6 && !c.failed(); i++ {
+		c.step(vAct{A: "dlvpair", N: x, M: f, K: 1})
+	}
+	c.tplBail()
+}
+
 var templates = map[string]func(c *cluster, rt *rapid.T){
+	"leaderconnclosed": (*cluster).tplLeaderConnClosed,
 	"snaprace":        (*cluster).tplSnapRace,
 	"cfgrevert":       (*cluster).tplCfgRevert,
 	"figure8":         (*cluster).tplFigure8,
